@@ -69,7 +69,54 @@ def check_abs(ctx, u, b, fl, cfg, bi, local, op, key, what, span):
             bad_dbl = True
             msg = "%s contains the header position %d times (an absolute position to which the header position is added again): files with bytes in front of " \
                   "the header are read at the wrong place" % (what, nbase)
+    # one variable, several definitions (seeded C17-9: the loop variable of the /Prev walk is set to `start_offset + /Prev` in front of the loop and to the
+    # bare /Prev inside it): the units are a union over definitions, so each definition is looked at on its own as well
+    if not (bad_rel or bad_dbl or bad_const):
+        for m, d, tg in _per_definition(u, b, fl, cfg, bi, local):
+            if "rel" in tg and "base" not in tg:
+                bad_rel = True
+                msg = "%s is a file offset (relative to the %%PDF- header) without the header position when it comes from the definition of _%d in block %d " \
+                      "(another definition of the same variable adds it): a file with bytes before the header is read at the wrong place from the second " \
+                      "step on" % (what, m, d[1])
+                break
     ctx.check(not (bad_rel or bad_dbl or bad_const), "C17-UNITS", key, msg, span, detail="%s: units %s" % (what, sorted(tags) or ["len/const"]))
+
+
+def _per_definition(u, b, fl, cfg, bi, local):
+    """(variable, definition, units of `local` with that definition alone) for every variable in the backward slice of `local` that has several whole
+    definitions; a definition that is computed from the variable itself (`pos = pos + n`) inherits from the others and is skipped"""
+    import copy
+    from flow import rv_locals, PASS_LAST
+
+    def back(start):
+        seen, st = set(), list(start)
+        while st:
+            x = st.pop()
+            if x in seen:
+                continue
+            seen.add(x)
+            for d in fl.defs.get(x, []):
+                if d[0] == "call":
+                    # only calls that hand their argument on (checked_add, `?`, unwrap ..): what a parser returns for the bytes at a position is not
+                    # "computed from" that position
+                    if last_seg(F.callee_name(d[2])) in PASS_LAST:
+                        st += [a[1][0] for a in d[2]["args"] if a[0] in ("copy", "move")]
+                else:
+                    st += rv_locals(d[2])
+        return seen
+    slice_ = back([local])
+    for m in sorted(slice_):
+        ds = fl.defs.get(m, [])
+        if len(ds) < 2 or any(d[3] for d in ds) or 1 <= m <= b["argc"]:
+            continue
+        for d in ds:
+            ops = [a[1][0] for a in d[2]["args"] if a[0] in ("copy", "move")] if d[0] == "call" else rv_locals(d[2])
+            if m in back(ops):
+                continue
+            fl2 = copy.copy(fl)
+            fl2.defs = dict(fl.defs)
+            fl2.defs[m] = [d]
+            yield m, d, u.classify(b, local, at=bi, cfg=cfg, fl=fl2)
 
 
 def rule_units(ctx, f):
